@@ -576,6 +576,7 @@ var guardTable = []guardSpec{
 	{"cache", "RowCache", "cache", "mutex", ""},
 	{"cache", "RowCache", "indexes", "mutex", ""},
 	{"cache", "TableCache", "cache", "mutex", ""},
+	{"cache", "TableCache", "dbModel", "mutex", ""},
 	{"cache", "eventProcessor", "handlers", "handlersMutex", ""},
 	{"server", "OvsdbServer", "monitors", "monitorMutex", ""},
 	{"server", "connectionMonitors", "monitors", "monitorMutex", "OvsdbServer"},
@@ -678,6 +679,23 @@ func collectAccesses(p *Program, fields map[*types.Var]bool) []access {
 												}
 											}
 										}
+									}
+								}
+							}
+						}
+					case *ssa.FieldAddr:
+						// a member of a struct-valued guarded field: x.f.g
+						if u.X != ssa.Value(fa) {
+							continue
+						}
+						if sr := u.Referrers(); sr != nil {
+							for _, r2 := range *sr {
+								switch w := r2.(type) {
+								case *ssa.UnOp:
+									out = append(out, access{fn, w, f, false, ctor})
+								case *ssa.Store:
+									if w.Addr == ssa.Value(u) {
+										out = append(out, access{fn, w, f, true, ctor})
 									}
 								}
 							}
